@@ -87,7 +87,14 @@ def _check(case, res, count=True):
     atts = []
     for k, batches in enumerate(case['attackers']):
         a = Attacker(name='att%d' % k, entry_points=[], reached_attack_steps=[])
-        g.add_attacker(a)
+        eps = (case.get('entry_points') or [])
+        if k < len(eps) and eps[k]:
+            # entry points are declared, nothing is reached yet: the surface is empty until something is compromised
+            g.add_attacker(a, entry_points=[objs[i % n].id for i in eps[k]])
+            if count:
+                res.count('class:entry-points-declared-nothing-reached')
+        else:
+            g.add_attacker(a)
         atts.append(a)
     comp = [set() for _ in atts]
     surfaces = [None] * len(atts)
@@ -335,6 +342,7 @@ def run(rng, res, tier, shard, nshards):
                 if len(atts) > 1:
                     atts[1] = [nec[1:]] if len(nec) > 1 else [[]]
         case = {'desc': desc, 'attackers': atts, 'relabel': rng.randrange(1, 10 ** 6) if rng.random() < 0.3 else None,
+                'entry_points': [[rng.randrange(1000) for _ in range(rng.randint(1, 3))] if rng.random() < 0.4 else [] for _ in atts],
                 'copy_at': rng.randint(1, 4) if rng.random() < 0.2 else None, 'copy_how': rng.choice(['deepcopy', 'deepcopy', 'reload'])}
         f = check(case, res)
         res.count('random-cases')
